@@ -48,6 +48,11 @@ class Executor:
         # the overrides made so far belong to the executor, not to the instance it held before: the new instance gets them at the
         # next query
         self._cells_have_been_changed = bool(self._cells)
+        for cell in self._cells.values():
+            # ... and the sheets reach as far as they reach
+            size = self._sheets_size[cell.title]
+            size['last_row'] = max(cell.row + 1, size['last_row'])
+            size['last_column'] = max(cell.column + 1, size['last_column'])
 
         return self
 
